@@ -5,6 +5,12 @@ import types
 from common import load, done
 
 rec = load()
+if "run_reactor" in rec.get("id", "") and "DULServiceProvider" in rec.get("id", ""):
+    from dul_common import reactor_check
+    _bad = reactor_check()
+    if _bad:
+        done(True, **_bad)
+    done(False, note="the real DUL reactor loop behaved as the contract says on the scripted iterations")
 import pynetdicom.timer as tmod
 
 
